@@ -20,9 +20,14 @@ echo "demo with change: rc=$rc_changed $(tail -1 "$wt/demo_changed.out")" | tee 
 ( cd "$wt" && cmake -G Ninja -B _build -DCMAKE_BUILD_TYPE=RelWithDebInfo -DCMAKE_CXX_FLAGS=-Wno-error -DBUILD_EXAMPLES=ON -DBUILD_DATA_TESTS=ON -DBUILD_BENCHMARKS=OFF >/dev/null 2>&1 && cmake --build _build -j12 >"$wt/build.log" 2>&1 ) || { echo "SUITE-BUILD-FAILED"; tail -20 "$wt/build.log" | tee -a "$log"; exit 3; }
 suite=$(ctest --test-dir "$wt/_build" -j8 --timeout 900 2>&1 | grep -E "tests passed|tests failed" | tail -1)
 echo "existing suite with change: $suite" | tee -a "$log"
-# --- the check
-git -C /repo apply "$d/patch.diff" || { echo "PATCH-DOES-NOT-APPLY-TO-REPO"; exit 3; }
-( cd /verif && timeout 1500 ./check "$prop" --tier quick --no-evidence "$@" >"$wt/check.out" 2>&1 ); rc_check=$?
-git -C /repo checkout -- .
-grep -E "^VIOLATION|^  detail|^OK|^FAIL|BROKEN" "$wt/check.out" | cut -c1-400 | head -6 | tee -a "$log"
+# --- the check: run against the patched scratch worktree (VERIF_REPO), or with APPLY_TO_REPO=1 against /repo itself with the patch
+# applied and reverted straight afterwards
+if [ "${APPLY_TO_REPO:-0}" = "1" ]; then
+  git -C /repo apply "$d/patch.diff" || { echo "PATCH-DOES-NOT-APPLY-TO-REPO"; exit 3; }
+  ( cd /verif && timeout 2400 ./check "$prop" --tier quick --no-evidence "$@" >"$wt/check.out" 2>&1 ); rc_check=$?
+  git -C /repo checkout -- .
+else
+  ( cd /verif && VERIF_REPO="$wt" VERIF_BUILD="$wt/vbuild" VERIF_WORK="$wt/vwork" timeout 2400 ./check "$prop" --tier quick --no-evidence "$@" >"$wt/check.out" 2>&1 ); rc_check=$?
+fi
+grep -E "^VIOLATION|^  detail|^OK|^FAIL|BROKEN" "$wt/check.out" | cut -c1-500 | head -6 | tee -a "$log"
 echo "check rc=$rc_check" | tee -a "$log"
